@@ -192,6 +192,24 @@ def loop_exit_edges(head):
     return out
 
 
+def exhaustive_loop(ctx, rule, func, head, what):
+    """Obligation: the loop visits every element of its domain - it is left
+    only when the domain is exhausted or by an exception (no break, no
+    return from inside the body).  For loops whose property-relevant work
+    must reach *every* element: a `continue` turned into a `break` ends the
+    walk at the first element that is skipped."""
+    early = [e for e in loop_exit_edges(head)
+             if e.kind not in ('done', 'exc') and
+             e.src.kind not in ('raise_stmt',)]
+    first = early[0].src if early else None
+    return ctx.ob(rule, func, first if first is not None else head,
+                  not early,
+                  '%s: the walk is never cut short (no break / return in '
+                  'the loop)%s' % (what, '' if not early else
+                                   ' - left early at: %s' % first.text(50)),
+                  construct='exhaustive: %s' % what)
+
+
 def enclosing_for(cfg, node, var=None):
     """Innermost for-loop header whose body contains node (and, if given,
     whose target is the name ``var``)."""
